@@ -74,6 +74,8 @@ SrcAt(o, tiles, c) ==
         hit == {i \in 1..Len(tiles) : <<tiles[i][1], tiles[i][2], tiles[i][3]>> = pre}
     IN IF hit = {} THEN 0 ELSE tiles[CHOOSE i \in hit : TRUE][4]
 
+\* clauses that are reported but never demanded (see the drivers): they do not stand in the way of an admissible choice
+ObservationOnly == {"coverage", "declared"}
 (* judging one observed converting reader *)
 ConvFails1(r) ==
     LET o == r.opts  tiles == r.tiles  exp == ExpectedOut(o, r.srccov, tiles) IN
@@ -98,7 +100,9 @@ ConvFails1(r) ==
 ConvFails(r) ==
     LET f0 == ConvFails1(r) IN
     IF f0 = {} \/ r.opts.hasgeo = 0 THEN f0
-    ELSE IF \E c \in GeoChoices \ {NoCh} : ConvFails1([r EXCEPT !.opts.geo = WithChoice(r.opts.geo, c)]) = {} THEN {} ELSE f0
+    ELSE LET alts == { ConvFails1([r EXCEPT !.opts.geo = WithChoice(r.opts.geo, c)]) : c \in GeoChoices \ {NoCh} }
+             ok == { a \in alts : a \subseteq ObservationOnly }
+         IN IF ok # {} THEN CHOOSE a \in ok : TRUE ELSE f0
 
 (* the same through the real command line (`versatiles convert <options> in out`): the options as a user types them select
    and relocate exactly the tiles of the model.  Every source tile lies in the source coverage, so the expected output is the
@@ -133,7 +137,8 @@ CliRecompFails(r) ==
     LET want == DeclaredOut(r.src_tc, r.target) IN
     Fails("cli_exit", r.exit = 0) \cup
     (IF r.exit # 0 THEN {} ELSE
-     Fails("cli_file_payload", r.file.ok = 1 /\ r.file.tiles = r.tiles /\ r.file.tc = want) \cup
+     Fails("cli_file_payload", r.file.ok = 1 /\ r.file.tiles = r.tiles) \cup
+     Fails("cli_file_declared", r.file.ok = 0 \/ r.file.tc = want) \cup
      Fails("cli_file_meta", r.file.ok = 0 \/ r.file.meta_name = RecompMetaName))
 
 (* C04: recompression.  ids in `lookups'/`walk'/`file' were obtained by decoding the delivered bytes with
@@ -147,6 +152,9 @@ RecompFails(r) ==
      Fails("stream_payload", r.walk_ok = 1 /\ r.walk = r.tiles) \cup
      \* C02 for the (re)compressing reader: the stream delivers the very bytes the lookups deliver
      Fails("stream_bytes_eq_lookup", r.walk_ok = 0 \/ r.walk_raw = r.lookup_raw) \cup
-     Fails("file_payload", r.file.skip = 1 \/ (r.file.ok = 1 /\ r.file.tiles = r.tiles /\ r.file.tc = want)) \cup
+     Fails("file_payload", r.file.skip = 1 \/ (r.file.ok = 1 /\ r.file.tiles = r.tiles)) \cup
+     \* WHICH compression is declared (clauses declared / file_declared) is reported, not demanded: C04 asks for identity
+     \* under whatever the output declares
+     Fails("file_declared", r.file.skip = 1 \/ r.file.ok = 0 \/ r.file.tc = want) \cup
      Fails("file_meta", r.file.skip = 1 \/ r.file.ok = 0 \/ r.file.meta_name = RecompMetaName))
 =============================================================================
